@@ -347,6 +347,20 @@ def process(ctx, rng, model_ok, bases, n_layouts, state, thorough):
         if err is not None and err[0] == "bounds":
             ctx.unproved("tok:boundaries", "a token's reported start/end does not delimit the token's text",
                          {"input": src, "why": err[1]})
+            # no layout rewriting without token boundaries — but the planted token's expected position follows from the text
+            # alone, so the case is still judged as written
+            exp, offs, kw = [], [], None
+            for k in sorted(b["marks"]):
+                o = b["marks"][k]
+                if k == 9:
+                    al, ac = L.pos_of(src, o)
+                    kw = (al, ac + b["family"][1])
+                    continue
+                offs.append(o)
+                exp.append(L.pos_of(src, o))
+            if offs:
+                cases.append({"kind": b["kind"], "tag": b["tag"], "src": src, "expect": exp, "runs": b["runs"], "how": "original",
+                              "before": src[:offs[0]], "family": b.get("family", (None,))[0], "known_wrong": kw})
             continue
         if err is not None and err[0] != "lex":
             ctx.exclude("token_dump_unusable")
